@@ -258,7 +258,16 @@ class Gen:
     def add_depsrc(self):
         w = self.add_call()
         w["ret"] = "val"
-        name_holder = self.add_src(deps=[w["id"]])
+        extra = []
+        if self.coin(0.5):
+            # further calls that must run before the source is read (e.g. a second step of the side effect)
+            pool = [n["id"] for n in self.nodes if n["kind"] == "call" and n["id"] not in self.writers
+                    and n["id"] != w["id"]]
+            if pool:
+                extra = self.rng.sample(pool, min(len(pool), self.rng.randrange(1, 3)))
+        # (the writer itself also runs after them, so that what it writes is newer than anything the source depends on)
+        w["deps"] = sorted(set(w["deps"]) | set(extra))
+        name_holder = self.add_src(deps=[w["id"]] + extra)
         w["writes"] = name_holder["store"]
         self.writers.add(w["id"])
         # the writer is consumed only through its store
@@ -401,7 +410,7 @@ def gen_sched(rng, est_steps=3000):
     else:
         strategy = ["rtb"]
     g = rng.random()
-    gran = "opcode" if g < 0.6 else ("line" if g < 0.85 else "sync")
+    gran = "opcode" if g < 0.5 else ("opcode+" if g < 0.65 else ("line" if g < 0.87 else "sync"))
     if strategy[0] == "rtb":
         gran = "sync"
     return dict(strategy=strategy, gran=gran, salt=rng.randrange(1 << 30))
